@@ -74,6 +74,14 @@ def build_request(req: dict[str, Any], variant: int):
                 y = jnp.arange(6.0).reshape(2, 3)
             if j == nout - 1 and j >= 1 and req["outKind"] == "duplicate":
                 y = outs[j - 1]          # the last two leaves are one value
+            if j == nout - 1 and j >= 1 and req["outKind"] == "folds_to_duplicate":
+                prev = outs[j - 1]       # a round trip the optimizer folds back onto the previous leaf
+                if variant % 3 == 0:
+                    y = prev.T.T if prev.ndim == 2 else jnp.transpose(jnp.transpose(prev, (0, 2, 1, 3)), (0, 2, 1, 3))
+                elif variant % 3 == 1:
+                    y = prev.reshape(-1).reshape(prev.shape)
+                else:
+                    y = prev.astype(jnp.float64 if prev.dtype == jnp.float32 else prev.dtype).astype(prev.dtype)
             if j == 1 and variant % 2 == 1 and req["outKind"] == "computed":
                 y = (y > 0)  # a boolean leaf
             if j == 0 and out_rank4:
